@@ -93,6 +93,7 @@ type Script struct {
 	Prefix   []ocicheck.Op `json:"prefix,omitempty"` // run in the crashing process before the marker
 	Target   ocicheck.Op   `json:"target"`
 	neutral  bool
+	noMap    bool // this run's prefix ended in another state than the reference run: mapping clause not judged
 }
 
 func (s *Script) nodes() []ocicheck.Node {
@@ -100,6 +101,24 @@ func (s *Script) nodes() []ocicheck.Node {
 		return fixedNodes()
 	}
 	return randomNodes(s.Seed, s.Idx)
+}
+
+type signature struct {
+	Tags    map[string]string `json:"tags"`
+	Digests map[string]string `json:"digests"`
+}
+
+func readSig(outFile string) (*signature, string) {
+	b, err := os.ReadFile(outFile + ".sig")
+	if err != nil {
+		return nil, ""
+	}
+	var sg signature
+	if json.Unmarshal(b, &sg) != nil {
+		return nil, ""
+	}
+	c, _ := json.Marshal(sg) // canonical: map keys sorted
+	return &sg, string(c)
 }
 
 type outcome struct {
@@ -133,6 +152,26 @@ func crashChild(args []string) {
 	var out outcome
 	for _, op := range sc.Prefix {
 		out.Prefix = append(out.Prefix, ocicheck.ErrClass(ocicheck.Apply(ctx, st, nodes, op)))
+	}
+	// what is on disk right before the interrupted operation, as a reopened
+	// store sees it (written outside the counted window): lets the supervisor
+	// recognise runs whose prefix ended in another state than the reference run
+	// (the library's GC picks the by-digest descriptor of a digest tagged under
+	// two media types in map-iteration order)
+	if ro, err := oci.NewFromFS(ctx, os.DirFS(args[1])); err == nil {
+		var sg signature
+		sg.Tags, _ = ocicheck.TagMap(ctx, ro)
+		sg.Digests = map[string]string{}
+		for _, n := range nodes {
+			d, err := ro.Resolve(ctx, n.Desc.Digest.String())
+			if err != nil {
+				sg.Digests[n.Desc.Digest.String()] = ocicheck.ErrClass(err)
+			} else {
+				sg.Digests[n.Desc.Digest.String()] = ocicheck.CanonDesc(d)
+			}
+		}
+		sb, _ := json.Marshal(sg)
+		os.WriteFile(args[3]+".sig", sb, 0o644)
 	}
 	if args[2] == "full" {
 		mon.Mark(1)
@@ -207,7 +246,7 @@ func judge(dir string, sc *Script, before, after *snapshot) (*snapshot, []viol) 
 	}
 	snap := &snapshot{rep: rep, mapping: mapping}
 	if before != nil && after != nil && err == nil {
-		if !reflect.DeepEqual(mapping, before.mapping) && !reflect.DeepEqual(mapping, after.mapping) {
+		if !sc.noMap && !reflect.DeepEqual(mapping, before.mapping) && !reflect.DeepEqual(mapping, after.mapping) {
 			vs = append(vs, viol{"mapping-neither:" + tk, fmt.Sprintf("tag mapping %v is neither the mapping before %v nor after %v the interrupted %s", mapping, before.mapping, after.mapping, tk)})
 		}
 		for d := range before.rep.Blobs {
@@ -395,6 +434,15 @@ func runCase(phase string, i int) worker.Result {
 	ob, _ = os.ReadFile(outFile)
 	oc = outcome{}
 	json.Unmarshal(ob, &oc)
+	refSig, refSigText := readSig(outFile)
+	if refSig == nil {
+		return fail("harness:no-signature", "the count run left no pre-operation signature", nil)
+	}
+	// before and after mapping come from the SAME (count) run
+	before.mapping = refSig.Tags
+	if before.mapping == nil {
+		before.mapping = map[string]string{}
+	}
 	after, vs := judge(afterDir, &sc, nil, nil)
 	res.Evals++
 	if len(vs) > 0 {
@@ -413,6 +461,7 @@ func runCase(phase string, i int) worker.Result {
 			return fail("harness:copy", err.Error(), nil)
 		}
 		os.Remove(outFile)
+		os.Remove(outFile + ".sig")
 		code, out, to := runChild(childTimeout, crashat, fmt.Sprint(k), logFile, "--", self, "--crashchild", scriptPath, d, "full", outFile)
 		switch {
 		case to:
@@ -431,7 +480,13 @@ func runCase(phase string, i int) worker.Result {
 			os.RemoveAll(d)
 			return fail("harness:traced-run", fmt.Sprintf("k=%d crashat exit %d: %s", k, code, out), nil)
 		}
+		_, sigText := readSig(outFile)
+		sc.noMap = sigText != refSigText
+		if sc.noMap {
+			res.Count("crash_states_mapping_unjudged_prefix_state_differs", 1)
+		}
 		_, vs := judge(d, &sc, before, after)
+		sc.noMap = false
 		res.Evals++
 		res.Count("crash_states_judged", 1)
 		h := ocicheck.StateHash(d)
